@@ -23,7 +23,7 @@ import (
 
 func TestMain(m *testing.M) {
 	time.Local = time.UTC
-	ev.Describe("client configurations: 0..6 controllers, each {not configured, zero-value address, 0.0.0.0:port, address:0, valid address:port} x protocol {udp, tcp, '', any, TCP, other} (struct literal or NewDevice) x bind {0.0.0.0, 127.0.0.x} x {port 0, fixed} x broadcast {unset, set} x debug {off, on} x configured controller time zone; addressed controller {answers at once, answers late, silent, port closed (refuses)}; then a random operation on a random configured or unknown controller, or discovery. Hook layer: the recording in-memory driver must see exactly one invocation of exactly the method and destination a reference routing function prescribes (255.255.255.255:60000 when no broadcast address is configured). Socket layer: the farm opens a UDP and a TCP endpoint for every address in play plus decoys; after the call exactly the expected endpoint holds exactly one request (one datagram / one connection carrying 64 bytes equal to the protocol encoding), every other endpoint nothing, and the observed source address equals the bind address (IP when specific, port when fixed). Non-trivial = configuration with >= 2 controllers of different kinds or a fallback-to-broadcast controller; distinct = distinct (configuration, call).",
+	ev.Describe("client configurations: 0..6 controllers, each {not configured, zero-value address, 0.0.0.0:port, address:0, valid address:port (also in IPv4-mapped IPv6 form)} x protocol {udp, tcp, '', any, TCP, other} (struct literal or NewDevice) x bind {0.0.0.0, 127.0.0.x} x {port 0, fixed} x broadcast {unset, set} x debug {off, on} x configured controller time zone; addressed controller {answers at once, answers late, silent, port closed (refuses)}; then a random operation on a random configured or unknown controller, or discovery. Hook layer: the recording in-memory driver must see exactly one invocation of exactly the method and destination a reference routing function prescribes (255.255.255.255:60000 when no broadcast address is configured). Socket layer: the farm opens a UDP and a TCP endpoint for every address in play plus decoys; after the call exactly the expected endpoint holds exactly one request (one datagram / one connection carrying 64 bytes equal to the protocol encoding), every other endpoint nothing, and the observed source address equals the bind address (IP when specific, port when fixed). Non-trivial = configuration with >= 2 controllers of different kinds or a fallback-to-broadcast controller; distinct = distinct (configuration, call).",
 		"socket layer: controller / broadcast addresses are loopback addresses 127.0.x.y with ephemeral ports; the real limited broadcast 255.255.255.255:60000 is exercised by shard 0 when port 60000 is free (otherwise skipped and counted)")
 	ev.Main(m, "C06")
 }
@@ -43,6 +43,8 @@ type routeCase struct {
 	// socket layer: the fixed bind port is held by another socket while the call is made - nothing may leave from any
 	// other port
 	BindBusy bool `json:"bind_busy,omitempty"`
+	// socket layer: the fixed bind port has the same NUMBER as the broadcast port (on another local address)
+	BindEqBroadcast bool `json:"bind_port_equals_broadcast_port,omitempty"`
 }
 
 func kinds(c routeCase) (map[string]bool, bool) {
@@ -200,6 +202,9 @@ func runSocket(c routeCase) (fail *rp.Fail, skipped bool) {
 				return nil, true
 			}
 			d.IP, d.Port = [4]byte{127, 0, 1, byte(10 + i)}, p.udp.Addr.Port()
+			if d.RawIP != "" {
+				d.RawIP = fmt.Sprintf("::ffff:127.0.1.%d", 10+i)
+			}
 			name := fmt.Sprintf("controller-%d", d.Serial)
 			endpoints[name] = p
 			names = append(names, name)
@@ -236,6 +241,17 @@ func runSocket(c routeCase) (fail *rp.Fail, skipped bool) {
 			return nil, true
 		}
 		cfg.BindPort = port
+		if c.BindEqBroadcast && cfg.HasBroadcast && cfg.BindIP != [4]byte{} {
+			// same port number as the broadcast endpoint, if it is free on the bind address
+			if l, err := net.ListenUDP("udp4", &net.UDPAddr{IP: net.IP(cfg.BindIP[:]), Port: int(cfg.BroadcastPort)}); err == nil {
+				l.Close()
+				if t, err := net.ListenTCP("tcp4", &net.TCPAddr{IP: net.IP(cfg.BindIP[:]), Port: int(cfg.BroadcastPort)}); err == nil {
+					t.Close()
+					cfg.BindPort = cfg.BroadcastPort
+					ev.Class("socket/bind-port-equals-broadcast-port", 1)
+				}
+			}
+		}
 	}
 	if c.BindBusy && cfg.BindPort != 0 {
 		hu, err1 := net.ListenUDP("udp4", &net.UDPAddr{IP: net.IP(cfg.BindIP[:]), Port: int(cfg.BindPort)})
@@ -454,6 +470,10 @@ func genCase(layer string) func(t *rapid.T) routeCase {
 				if d.IP == [4]byte{} {
 					d.IP = [4]byte{10, 0, 0, byte(1 + i)}
 				}
+				if rapid.IntRange(0, 5).Draw(t, "mapped") == 0 {
+					// the same IPv4 address held in its IPv4-mapped IPv6 form (what netip.AddrFromSlice(net.ParseIP(..)) gives)
+					d.RawIP = fmt.Sprintf("::ffff:%d.%d.%d.%d", d.IP[0], d.IP[1], d.IP[2], d.IP[3])
+				}
 			}
 			c.Cfg.Devices = append(c.Cfg.Devices, d)
 		}
@@ -481,6 +501,7 @@ func genCase(layer string) func(t *rapid.T) routeCase {
 		}
 		if layer == "socket" && c.Cfg.BindPort != 0 && c.Cfg.BindIP != [4]byte{} {
 			c.BindBusy = rapid.IntRange(0, 3).Draw(t, "bind.busy") == 0
+			c.BindEqBroadcast = !c.BindBusy && rapid.IntRange(0, 2).Draw(t, "bind.eq.broadcast") == 0
 		}
 		if layer == "socket" && op == "SetTime" {
 			c.Call.V.TimeLoc = "" // keep the socket-layer requests independent of zone data
